@@ -24,6 +24,7 @@ func init() {
 			c.run("C02-10", "GUARD-DOM: protocol-1 data loops send/write, hash and count the same chunk and stop at the announced size", c02V1Stream)
 			c.run("C02-11", "GUARD-DOM (interprocedural): no acknowledgement of the MD5 step before the digest comparison", c02AckAfterVerify)
 			c.run("C02-12", "SIBLING/LITERAL: the per-chunk ack line — separator, order of the two numbers, base and width", c02AckFormat)
+			c.run("C02-S1", "shared with C08-R1: the receiver never leaves the resume step successfully without cutting the destination at the proven offset (else the digest of the re-sent tail matches over a destination that still carries old bytes)", c08R1)
 			c.run("C02-8", "MUST-PASS: no error result of the transfer layer is dropped; every nil-test's non-nil edge fails", c02ErrorDiscipline)
 		})
 }
